@@ -78,6 +78,11 @@ TEXT = {
    note="trusted: Lean kernel, the LTS (xsync.Map linearizable), event-sequence ties; 'handler invoked exactly once per opened channel' and context cancellation are decided by the scenario oracle plus C09's late-open theorem. Found and repaired: F12.",
    technique="Lean 4 proof (inductive invariant by full finite case split, induction over schedules) + regenerated event-sequence ties + seeded scenario runs",
    design="§4/C20"),
+ "C15": dict(
+   text="Lean 4 theorems for EVERY syntax tree (any number of imports/options/definitions of all five kinds, every type form, tags and enum numbers of any size, methods with every input/output/channel/oneway combination, contextual keywords as names): (a) token level: the reference parser (one function per production of the pinned grammar) applied to the canonical tokens of a well-formed tree returns exactly that tree (parse_print, by induction over the tree with fuel bounds derived from token counts), hence the tree is determined by the token sequence (parse_injective); (b) character level: for every sequence of lexemes and EVERY choice of separators between them (blanks, tabs, CR/LF, // comments and /* */ comments with arbitrary NUL-free ASCII content; empty wherever the next lexeme cannot continue the previous one) the lexer state machine returns exactly the tokens of the lexemes (lex_layout, by an invariant on the pending-lexeme state), comment content never leaks (lex_blank); (c) composed: every layout of the canonical tokens of a tree lexes and parses to that tree (parse_layout). Ties regenerated on every run: the production list of grammar.y (actions stripped, error productions marked), the keyword table, the lexer's event sequences, and grammar.go regenerated with a vendored goyacc (byte-identical, 0 conflicts: the generated parser accepts exactly the language of the pinned productions). Correspondence: every generated text (random trees x random layout and optional separators, token-level and character-level mutations incl. lexically hostile junk, truncations, the repository's .spec files) is lexed and parsed by the implementation and by the model; Go-side oracles straight from the property: no panic, lexical error => error, invalid integer literal => error, accepted tree = rendered tree, reprint fixed point, canonical tokens of the returned tree = source tokens up to optional separators.",
+   note="trusted: Lean kernel, the hand-written lexer/parser model (validated on ~3k lines per quick run, 60k thorough, 0 disagreements), vendored goyacc, extractor/harness/runner. Found and repaired: lexical errors ignored (d43dfff), negative scanner tokens skipped (5f1329b).",
+   technique="Lean 4 proof (structural induction over syntax trees; state-machine invariant for the lexer) + regenerated grammar/keyword/event facts + goyacc regeneration + differential correspondence + Go-side oracles",
+   design="§4/C15"),
 }
 
 def main():
